@@ -27,6 +27,9 @@ def run(tier):
     c.replay("kv", eg, variant="inmem", extra={"tick_ms": 30})
     ec = kv.emit(c, "kv-class", kv.consts(keys="Keys3", pats="PatsC", invals=("x",), exps=("none",), many=1), workers=6)
     kv.replay_both(c, [ec])
+    # a key that contains '*', escaped metacharacters in patterns, and the empty key (both backends)
+    ee = kv.emit(c, "kv-escape", kv.consts(keys="KeysS", pats="PatsS", invals=("x",), exps=("none",), many=1), workers=6)
+    kv.replay_both(c, [ee])
     # the same contract with time, on the Redis backend only (virtual clock, so it is cheap): what a write
     # stored - including the TTL the server keeps for it - is observed after time has passed
     et = kv.emit(c, "kv-time-redis", kv.consts(pats="Pats2", invals=("x",), exps=("none", "s1", "s3"), maxnow=4), workers=6)
